@@ -160,6 +160,52 @@ def long_history():
     return None
 
 
+def many_iterations():
+    """more than 2048 stored iterations of a few particles each (a small ensemble run for a long time): the formula, against a float64
+    evaluation with one global maximum per sample; order independence on the same history reversed"""
+    rng = np.random.RandomState(13)
+    T = 2100
+    ns = rng.randint(1, 4, size=T)
+    betas = np.r_[0.0, np.sort(rng.uniform(0, 1, T - 2)), 1.0]
+    zs = -3.0 * betas + 0.2 * rng.randn(T)
+    batches = [(betas[t], zs[t], rng.randn(ns[t]) * 4.0 - 6.0 * betas[t]) for t in range(T)]
+    out = []
+    for bs in (batches, batches[::-1]):
+        sm = build(bs)
+        lw, lz = sm.compute_logw_and_logz(1.0)
+        l = np.concatenate([b[2] for b in bs])
+        n = np.array([len(b[2]) for b in bs], float)
+        comp = l[:, None] * np.array([b[0] for b in bs])[None, :] - np.array([b[1] for b in bs])[None, :] + np.log(n / n.sum())[None, :]
+        mx = comp.max(1)
+        u = l - (mx + np.log(np.exp(comp - mx[:, None]).sum(1)))
+        L = u.max() + np.log(np.exp(u - u.max()).sum())
+        if len(lw) != len(u) or np.abs(lw - (u - L)).max() > 1e-8 or abs(lz - (L - np.log(len(u)))) > 1e-8:
+            return (f"history of {T} iterations (1-3 particles each): log-weights deviate from the balance-heuristic formula by {np.abs(lw - (u - L)).max():.3g}, "
+                    f"logz {lz!r} vs {L - np.log(len(u))!r}")
+        out.append((np.sort(lw), lz))
+    if np.abs(out[0][0] - out[1][0]).max() > 1e-8 or abs(out[0][1] - out[1][1]) > 1e-8:
+        return f"history of {T} iterations: the weights depend on the order of the iterations"
+    return None
+
+
+def held_results():
+    """a result stays what it was: log-weights returned for one temperature are unchanged by later calls at other temperatures on the same
+    object (StateManager and Sampler.posterior(return_logw=True) / results())"""
+    rng = np.random.RandomState(17)
+    batches = [(b, rng.randn() * 0.3, rng.randn(5) * 3.0) for b in (0.0, 0.4, 1.0)]
+    sm = build(batches)
+    for norm in (True, False):
+        first = sm.compute_logw_and_logz(1.0, normalize=norm)[0]
+        keep = np.array(first, copy=True)
+        for other in (0.5, 0.0, 0.25):
+            sm.compute_logw_and_logz(other, normalize=True)
+            sm.compute_logw_and_logz(other, normalize=False)
+        if not np.array_equal(np.asarray(first), keep):
+            return (f"the log-weights returned by compute_logw_and_logz(1.0, normalize={norm}) changed (by up to {np.abs(np.asarray(first) - keep).max():.3g}) after later calls at "
+                    f"other temperatures on the same object: results share a reused buffer")
+    return None
+
+
 def restored_history():
     """the weights follow the history that is stored *now*: after importing / loading another history with the same number of
     iterations into the same object (update_from_dict, load_state) nothing of the previous history may survive in a cache"""
@@ -266,7 +312,7 @@ def reused_sampler():
 def main():
     p = json.load(open(sys.argv[1]))
     tried = 0
-    for name, fn in (("long-history", long_history), ("restored-history", restored_history), ("integer-histories", integer_histories),
+    for name, fn in (("long-history", long_history), ("many-iterations", many_iterations), ("held-results", held_results), ("restored-history", restored_history), ("integer-histories", integer_histories),
                      ("reused-sampler", reused_sampler)):
         tried += 1
         try:
